@@ -129,6 +129,12 @@ func InstallDisplay() {
 	}
 	installed = true
 	exec.GlobalValues["显示"] = value.NewFunction(func(receiver r.Element, params []r.Element) (r.Element, error) {
+		// what the predefined 显示 does (pkg/exec/globals.go: param.String() of every argument, joined and printed):
+		// the text is built exactly like that - so a value whose text form crashes, crashes here too - but not printed,
+		// because stdout carries the worker protocol
+		for _, p := range params {
+			_ = p.String()
+		}
 		args := []interface{}{}
 		s := &snap{ids: map[uintptr]int{}}
 		for _, p := range params {
